@@ -1710,7 +1710,7 @@ class Compiler:
 
         orelse = template(
             "SLOT(__stream, econtext.copy(), rcontext)",
-            SLOT=name)
+            SLOT=name) + template("econtext.update(rcontext)")
         test = ast.Compare(
             left=load(name),
             ops=[ast.Is()],
